@@ -178,6 +178,25 @@ def run(ctx):
             n_sites += 1
             ctx.ob("R-ARGMAX", "C04.5", f, "np.argmax(<predicate>) is not used as a split index in the sample store (it is 0, not 'all', when nothing satisfies the predicate)", False, f"`{src(n)[:90]}`: the predicate can be all-False when the threshold comes from the other store", node=n)
     ctx.ob("R-ARGMAX", "C04.5", OS_, "first-true search in the sample store is free of the all-False trap", True, f"{n_sites} argmax(<predicate>) sites in OrderedSamples (fixture matched {len(fx)})")
+    # ---- C04.6 the threshold the store acts on is the threshold it was given ----------------------------------------
+    # remove_samples / strict add_samples count against self.log_likelihood_threshold; "the number removed equals the
+    # number of live samples strictly below the threshold" is a statement about the caller's threshold, so the setter
+    # must store its argument unchanged on every path (a soft threshold may legitimately move down), and the sampler
+    # must hand the same value to both stores
+    for cq_ in (tables.OS_, tables.INS):
+        up_ = ctx.fn(cq_ + ".update_log_likelihood_threshold")
+        ua_ = FA(up_)
+        par_ = up_.params()[1]
+        sts_ = ua_.find(lambda s_: isinstance(s_, ast.Assign) and any(src(t_) == "self.log_likelihood_threshold" for t_ in s_.targets))
+        rebound_ = [s_ for s_ in walk_no_nested(up_.node) if isinstance(s_, (ast.Assign, ast.AugAssign)) and any(isinstance(x_, ast.Name) and x_.id == par_ and isinstance(x_.ctx, ast.Store) for x_ in ast.walk(s_))]
+        ok_ = len(sts_) == 1 and isinstance(ua_.stmt(sts_[0]).value, ast.Name) and ua_.stmt(sts_[0]).value.id == par_ and not rebound_ and ua_.on_every_normal_path(sts_[0]) and not ua_.guards(sts_[0])
+        ctx.ob("R-WRITERS", "C04.6", up_, "update_log_likelihood_threshold stores exactly the threshold it was given, unconditionally", ok_, f"stores: {[src(ua_.stmt(s_))[:60] for s_ in sts_]}" + (f"; `{par_}` is re-bound: `{src(rebound_[0])[:50]}`" if rebound_ else ""))
+    ins_up_ = ctx.fn(tables.INS + ".update_log_likelihood_threshold")
+    fwd_ = [c_ for c_ in walk_no_nested(ins_up_.node) if isinstance(c_, ast.Call) and isinstance(c_.func, ast.Attribute) and c_.func.attr == "update_log_likelihood_threshold"]
+    ctx.ob("R-WRITERS", "C04.6", ins_up_, "the sampler forwards the same threshold to the training store and to the independent store", len(fwd_) == 2 and {src(c_.func.value) for c_ in fwd_} == {"self.training_samples", "self.iid_samples"} and all(len(c_.args) == 1 and src(c_.args[0]) in ("self.log_likelihood_threshold", ins_up_.params()[1]) for c_ in fwd_), f"{[src(c_)[:70] for c_ in fwd_]}")
+    for f_, n_, kind_ in attr_stores(prog, "log_likelihood_threshold", [prog.cls(tables.OS_)]):
+        ctx.ob("R-WRITERS", "C04.6", f_, "the store's threshold is written only by its constructor (None) and its setter", f_.name in ("__init__", "update_log_likelihood_threshold"), f"`{src(n_)[:60]}`", node=n_)
+    ctx.floor("C04.6", 5)
     ctx.assumptions += ["numpy insert / searchsorted / argsort semantics", "the history-level statement (arbitrary interleavings with ties) is a question about array contents and is not decided; only the discipline every interleaving relies on is"]
 
 
